@@ -11,6 +11,7 @@ import (
 	"os"
 	"path/filepath"
 	"regexp"
+	"runtime/debug"
 	"strings"
 	"time"
 
@@ -117,6 +118,28 @@ func errClass(err error) string {
 	return "other"
 }
 
+// panicSite keeps the clover frames of a panic stack (diagnosis only).
+func panicSite(stack string) string {
+	var out []string
+	lines := strings.Split(stack, "\n")
+	for i, l := range lines {
+		if strings.Contains(l, "ostafen/clover") && !strings.Contains(l, "verifharness") && i+1 < len(lines) {
+			out = append(out, strings.TrimSpace(l)+" @ "+strings.TrimSpace(lines[i+1]))
+		}
+		if len(out) >= 6 {
+			break
+		}
+	}
+	if len(out) == 0 { // not in clover: keep the innermost frames, whatever they are
+		for i, l := range lines {
+			if i > 6 && i < 20 {
+				out = append(out, strings.TrimSpace(l))
+			}
+		}
+	}
+	return strings.Join(out, " | ")
+}
+
 // guarded runs fn under recover() and a deadline.  fn fills res and returns the call's error.
 func (b *Backend) guarded(fn func(res E) error) E {
 	type outT struct {
@@ -131,7 +154,13 @@ func (b *Backend) guarded(fn func(res E) error) E {
 				if len(msg) > 200 {
 					msg = msg[:200]
 				}
-				ch <- E{"st": "panic", "err": "panic", "msg": msg}
+				stack := string(debug.Stack())
+				if !strings.Contains(stack, "github.com/ostafen/clover/v2") {
+					// the harness itself is broken: no verdict may come out of this run
+					fmt.Fprintf(os.Stderr, "HARNESS PANIC: %s\n%s\n", msg, stack)
+					os.Exit(3)
+				}
+				ch <- E{"st": "panic", "err": "panic", "msg": msg, "stack": panicSite(stack)}
 			}
 		}()
 		err := fn(res)
